@@ -20,7 +20,7 @@ from typing import (
 )
 
 from apischema.aliases import Aliaser
-from apischema.cache import CacheAwareDict
+from apischema.cache import CacheAwareDict, reset
 from apischema.methods import is_method, method_class
 from apischema.objects import get_alias
 from apischema.objects.fields import FieldOrName, check_field_or_name, get_field_name
@@ -101,6 +101,7 @@ class Validator:
         self.owner = owner
         self.dependencies = find_all_dependencies(owner, self.func) | self.params
         _validators[owner].append(self)
+        reset()  # in-place modification doesn't go through CacheAwareDict.__setitem__
 
     def __set_name__(self, owner, name):
         self._register(owner)
